@@ -68,8 +68,13 @@ package vm
 //@ modcomps H_ E_ M G_ C_
 //@ assumeframe
 
+// C14: a module already imported in this VM is returned as is (its code is not evaluated again: the cached
+// branch returns before anything else); a freshly evaluated module is cached under its name, so every later
+// importer gets the same module object.
 //@ func (*VirtualMachine).importModule
-//@ props C12 C09
+//@ props C12 C09 C14
+//@ ensures[C14.cache.hit] old(haskey(vm.modules, name)) ==> err == nil && result0 == old(vm.modules[name]) && vm.fp == old(vm.fp) && vm.sp == old(vm.sp) && vm.ip == old(vm.ip)
+//@ ensures[C14.cache.fill] !old(haskey(vm.modules, name)) && err == nil ==> haskey(vm.modules, name) && vm.modules[name] == result0
 //@ requires[C12.ctx] ctx != nil && hasos(ctx)
 //@ requires vm != nil
 //@ requires[C09.unlocked] !ghost("lock.w", bool, &vm.cloneMutex)
@@ -119,3 +124,27 @@ package vm
 // C09: the VM never calls a function that writes compiled code (the writers are listed by the scan
 // C09.code.writers in package compiler): it only reads *compiler.Code and wraps it in its own code objects.
 //@ scan[C09.vm.nocodewriters] C09 extcalls github.com/risor-io/risor/compiler.(*Compiler).*,github.com/risor-io/risor/compiler.New,github.com/risor-io/risor/compiler.Compile,github.com/risor-io/risor/compiler.(*Code).addName,github.com/risor-io/risor/compiler.(*Code).newChild,github.com/risor-io/risor/compiler.codeFromState,github.com/risor-io/risor/compiler.UnmarshalCode,github.com/risor-io/risor/compiler.(*loop).end: newVM
+
+// C14: the module's global variables live in an array created for that module's code.
+//@ func loadRootCode
+//@ props C14
+//@ havoc GlobalNames
+//@ requires cc != nil
+//@ modifies nothing
+//@ invariant 1: c != nil && fresh(c) && fresh(c.Globals)
+//@ ensures[C14.globals.fresh] result != nil && fresh(result) && fresh(result.Globals)
+
+//@ func (*VirtualMachine).resumeFrame
+//@ trusted
+//@ modcomps H_vm_VirtualMachine_fp H_vm_VirtualMachine_ip H_vm_VirtualMachine_sp H_vm_VirtualMachine_activeFrame H_vm_VirtualMachine_activeCode H_vm_VirtualMachine_frames H_vm_VirtualMachine_stack H_vm_frame_ E_
+
+// C09 / C14: a VM never aliases the instruction or name arrays of the compiled code: it works on its own copies.
+//@ func wrapCode
+//@ props C09 C14
+//@ requires cc != nil
+//@ modifies nothing
+//@ invariant 1: c != nil && fresh(c) && c.Code == cc && fresh(c.Instructions) && fresh(c.Names) && fresh(c.Constants) && len(c.Instructions) == len(cc.instructions) && len(c.Names) == len(cc.names) && len(c.Constants) == len(cc.constants) && 0 <= i && i <= len(cc.instructions) && forall(k, 0, i, c.Instructions[k] == cc.instructions[k])
+//@ invariant 2: c != nil && fresh(c) && c.Code == cc && fresh(c.Instructions) && fresh(c.Names) && fresh(c.Constants) && len(c.Instructions) == len(cc.instructions) && len(c.Names) == len(cc.names) && len(c.Constants) == len(cc.constants) && forall(k, 0, len(cc.instructions), c.Instructions[k] == cc.instructions[k]) && 0 <= i && i <= len(cc.names) && forall(k, 0, i, c.Names[k] == cc.names[k])
+//@ invariant 3: c != nil && fresh(c) && c.Code == cc && fresh(c.Instructions) && fresh(c.Names) && fresh(c.Constants) && len(c.Instructions) == len(cc.instructions) && len(c.Names) == len(cc.names) && len(c.Constants) == len(cc.constants) && forall(k, 0, len(cc.instructions), c.Instructions[k] == cc.instructions[k]) && forall(k, 0, len(cc.names), c.Names[k] == cc.names[k]) && 0 <= i && i <= len(cc.constants)
+//@ ensures[C09.wrap.own] result != nil && fresh(result) && result.Code == cc && fresh(result.Instructions) && fresh(result.Names) && fresh(result.Constants)
+//@ ensures[C09.wrap.copy] len(result.Instructions) == len(cc.instructions) && forall(k, 0, len(cc.instructions), result.Instructions[k] == cc.instructions[k]) && len(result.Names) == len(cc.names) && forall(k, 0, len(cc.names), result.Names[k] == cc.names[k]) && len(result.Constants) == len(cc.constants)
